@@ -320,3 +320,16 @@ PLAN["C05"] = {
                  [dict(MON16, budget=1200), {"flavour": "rel", "shards": 16, "scale": 0.3, "budget": 600},
                   {"flavour": "tsan", "shards": 4, "scale": 0.2, "budget": 900, "timeout": 3000}]),
 }
+
+PLAN["C19"] = {
+    "rule": "round trip: small problems over all cone kinds (extreme finite values, empty P, presolve reductions in a slice) with EVERY settings field perturbed, some with the public settings "
+            "field edited after construction; the file is parsed by the harness (serde_json::Value): P(triu), q, A, b equal the user's data to 96 ulp (bitwise with equilibration off), same "
+            "patterns, cones = the user's list after the harness's own consolidation; loading reproduces the settings field by field (time_limit=inf included), loaded and original solves "
+            "agree in verdict and objective, a settings argument at load time overrides the stored one. fault sequence: for 6 (quick) / 40 (thorough) valid files, at EVERY byte offset: "
+            "truncation, deletion, duplication, replacement by each of 0 9 - . , : [ ] { } \" e and a random byte; outcome must be Err or Ok of a well-formed solver (2% of accepted files are "
+            "also solved for 3 iterations); a panic is a violation keyed by its panic site",
+    "assumptions": SOLVE_ASSUME,
+    "min_nontrivial": 100,
+    "runs": runs([dict(MON16, budget=200)],
+                 [dict(MON16, budget=1200), {"flavour": "asan", "shards": 16, "scale": 0.3, "budget": 900}, {"flavour": "miri", "shards": 16, "budget": 900, "timeout": 3000}]),
+}
